@@ -126,7 +126,10 @@ def wire_terms(t):
 def ev(lc, pubt, privt):
     """evaluate a recorder linear combination {var: coeff} on wire terms (var 0 = one, k>0 pub k, k<0 priv -k)"""
     s = None
+    P = ENG.modulus
     for k, c in lc.items():
+        if type(c) is int and P is not None and (c >= P or c < -P):
+            c %= P            # every use of these terms is a congruence modulo the field prime; keeps numerals small
         w = z3.IntVal(1) if k == 0 else (pubt[k - 1] if k > 0 else privt[-k - 1])
         term = T(c) * w if not (type(c) is int and c == 1) else w
         s = term if s is None else s + term
@@ -203,3 +206,58 @@ def model_eval_int(model, term):
     if z3.is_int_value(mv):
         return mv.as_long()
     raise E.Unsupported("model value is not an integer: %s" % mv)
+
+
+# ------------------------------------------------------------------------------------------ cone-of-influence slicing
+
+def _vars_of(term, cache):
+    tid = term.get_id()
+    r = cache.get(tid)
+    if r is not None:
+        return r
+    out = set()
+    todo = [term]
+    seen = set()
+    while todo:
+        t = todo.pop()
+        i = t.get_id()
+        if i in seen:
+            continue
+        seen.add(i)
+        if z3.is_const(t) and t.decl().kind() == z3.Z3_OP_UNINTERPRETED:
+            out.add(i)
+        else:
+            todo.extend(t.children())
+    cache[tid] = out
+    return out
+
+
+class Slicer:
+    """facts that can influence a goal within `hops` steps of shared variables.  Any subset of the facts is sound for an
+    unsat answer; a sat/unknown answer on a slice decides nothing and the caller falls back to all facts."""
+
+    def __init__(self, facts):
+        self.facts = list(facts)
+        self.cache = {}
+        self.fvars = [_vars_of(f, self.cache) for f in self.facts]
+        self.index = {}
+        for i, vs in enumerate(self.fvars):
+            for v in vs:
+                self.index.setdefault(v, []).append(i)
+
+    def slice(self, goal, hops=2, limit=400):
+        vs = set(_vars_of(goal, self.cache))
+        chosen = set()
+        frontier = set(vs)
+        for _ in range(hops):
+            new = set()
+            for v in frontier:
+                for i in self.index.get(v, ()):
+                    if i not in chosen:
+                        chosen.add(i)
+                        new |= self.fvars[i]
+            frontier = new - vs
+            vs |= new
+            if len(chosen) > limit:
+                break
+        return [self.facts[i] for i in sorted(chosen)]
